@@ -43,6 +43,13 @@ func (t *tracer) take() []event {
 }
 
 // middleware builds the tracing (and optionally rewriting) middleware for mw.
+// All tracing middleware of a run are closures produced by this ONE factory
+// (different captured specs): it must not be inlined, or each call site would
+// get its own copy of the closure code and the middleware would stop sharing a
+// code pointer - which is how middleware built by one constructor function
+// look to the runtime (reflect.Value.Pointer of a closure is its code).
+//
+//go:noinline
 func (t *tracer) middleware(mw *mwSpec) frugal.ServiceMiddleware {
 	return func(next frugal.InvocationHandler) frugal.InvocationHandler {
 		return func(svc reflect.Value, m reflect.Method, args frugal.Arguments) frugal.Results {
